@@ -293,8 +293,24 @@ class WorldSession:
         self.drv.ask({"op": "world", "world": C.world2j(self.w)})
 
     def loader_diffs(self):
+        """the loaded tables vs (a) an independent reading of the scenario objects (worldgen.compare_loader) and
+        (b) the Lean loader model `NSG.load` applied to the scenario read by scenario_reader.py"""
         objs = self.objects if self.objects is not None else self.w._cyst_objects
-        return compare_loader(objs, self.w, self.use_firewall)
+        diffs = compare_loader(objs, self.w, self.use_firewall)
+        try:
+            from .scenario_reader import scenario_json
+            m = self.drv.ask({"op": "load", "scenario": scenario_json(objs), "use_firewall": bool(self.use_firewall)})["world"]
+            real = C.world2j(self.w)
+            for tab in ("nets", "services", "data", "fw", "blocks"):
+                if C.cmap(m[tab]) != C.cmap(real[tab]):
+                    rm, mm = dict(C.cmap(real[tab])), dict(C.cmap(m[tab]))
+                    bad = {str(k): (rm.get(k), mm.get(k)) for k in set(rm) | set(mm) if rm.get(k) != mm.get(k)}
+                    diffs.append(f"{tab} (loaded, model of the loader) differ at: {str(bad)[:500]}")
+            if sorted(map(tuple, m["hostname"])) != sorted(map(tuple, real["hostname"])):
+                diffs.append(f"hostname: loaded {sorted(map(tuple, real['hostname']))[:6]}... model {sorted(map(tuple, m['hostname']))[:6]}...")
+        except Exception as e:      # a scenario shape the reader does not understand is reported, not hidden
+            diffs.append(f"loader-model: {e!r}")
+        return diffs
 
     def step(self, view: GameState, action: Action):
         """Executes on both sides. Returns dict with real/model results and the comparison."""
